@@ -20,7 +20,8 @@ Inductive op :=
 | ODelete (c : Z)                (* Service.DeleteChannel(name) *)
 | OGet (c : Z)                   (* Service.GetChannel(name) != nil *)
 | OPush (c : Z)                  (* if ch := GetChannel(name); ch != nil { ch.PushMessage } *)
-| OFront (live ids : list Z)     (* ClientSessions.PushMsg{Ids: ids} on a front whose live ids are [live] *)
+| OFront (live closing ids : list Z)  (* ClientSessions.PushMsg{Ids: ids} on a front whose registered open connections are [live];
+                                     [closing]: still registered, but closed at network level (Push fails; removal pending) *)
 | ODirect (f : Z) (ids : list Z). (* Service.PushMessageById / PushMessageByIds(front, ids): straight to the push implementation *)
 
 Inductive obs :=
@@ -49,7 +50,8 @@ Definition chan_leave (ch : channel) (f i : Z) : channel :=
   | None => ch
   end.
 
-Definition front_push (live ids : list Z) : list Z := filter (fun i => zmem i live) ids.
+Definition deliverable (live closing : list Z) (i : Z) : bool := zmem i live && negb (zmem i closing).
+Definition front_push (live closing ids : list Z) : list Z := filter (deliverable live closing) ids.
 
 Definition step (s : st) (o : op) : st * obs :=
   match o with
@@ -72,7 +74,7 @@ Definition step (s : st) (o : op) : st * obs :=
       | Some ch => (s, BPush ch)
       | None => (s, BNoChan)
       end
-  | OFront live ids => (s, BDeliver (front_push live ids))
+  | OFront live closing ids => (s, BDeliver (front_push live closing ids))
   | ODirect f ids => (s, BPush [(f, ids)])
   end.
 
